@@ -285,6 +285,12 @@ func (session *ServerCommandSession) handleAnnounce(requestCtx nazahttp.HttpReqM
 		return err
 	}
 
+	// 一个连接只对应一个pub或sub session，已经存在时不允许再创建，否则前一个session会被遗留在上层
+	if session.pubSession != nil || session.subSession != nil {
+		Log.Errorf("[%s] ANNOUNCE but session already exist on this connection.", session.uniqueKey)
+		return nazaerrors.Wrap(base.ErrRtsp)
+	}
+
 	session.pubSession = NewPubSession(urlCtx, session)
 	Log.Infof("[%s] link new PubSession. [%s]", session.uniqueKey, session.pubSession.UniqueKey())
 	session.pubSession.InitWithSdp(sdpCtx)
@@ -324,6 +330,12 @@ func (session *ServerCommandSession) handleDescribe(requestCtx nazahttp.HttpReqM
 	if err != nil {
 		Log.Errorf("[%s] parse presentation failed. uri=%s", session.uniqueKey, requestCtx.Uri)
 		return err
+	}
+
+	// 一个连接只对应一个pub或sub session，已经存在时不允许再创建，否则前一个session会被遗留在上层
+	if session.pubSession != nil || session.subSession != nil {
+		Log.Errorf("[%s] DESCRIBE but session already exist on this connection.", session.uniqueKey)
+		return nazaerrors.Wrap(base.ErrRtsp)
 	}
 
 	session.describeSeq = requestCtx.Headers.Get(HeaderCSeq)
